@@ -1,6 +1,7 @@
 package main
 
 import (
+	"sync"
 	"bufio"
 	"encoding/json"
 	"fmt"
@@ -485,7 +486,18 @@ func (e *Engine) writeReplay(prop string, res *FuncResult, g *Goal, o runOpts) r
 		"solver_output": truncate(g.Output, 4000),
 	}
 	confirmed := false
-	relaxed := g.Status == "unknown" && !g.ExpectSat && res.X != nil && res.Fn != nil
+	// candidate search for undecided obligations is budgeted per run: functional and safety clauses only
+	relaxed := g.Status == "unknown" && !g.ExpectSat && res.X != nil && res.Fn != nil && (g.Kind == "post" || g.Kind == "safety" || g.Kind == "inv-keep")
+	if relaxed {
+		relaxBudgetMu.Lock()
+		if relaxBudget <= 0 {
+			relaxed = false
+			rp["candidate_from"] = "not searched: the per-run budget of candidate searches was used up by earlier obligations"
+		} else {
+			relaxBudget--
+		}
+		relaxBudgetMu.Unlock()
+	}
 	if g.Status == "failed" || relaxed {
 		qo := qopt{}
 		if relaxed {
@@ -578,6 +590,9 @@ func (e *Engine) writeReplay(prop string, res *FuncResult, g *Goal, o runOpts) r
 	os.WriteFile(path, data, 0o644)
 	return replayInfo{Path: path, Confirmed: confirmed}
 }
+
+var relaxBudget = 3
+var relaxBudgetMu sync.Mutex
 
 func hasValParam(res *FuncResult) bool {
 	if res.Fn == nil {
